@@ -570,9 +570,9 @@ PROPS = {
     "C08": dict(fams=[("core", 2), ("crash", 3)], corpus=["core", "crash"], mc="MC_crash3", mc_deep="MC_crash3_deep", hrv=True),
     "C14": dict(fams=[("crash", 3), ("snap", 2)], corpus=["crash", "snap"], mc="MC_crash3", mc_deep="MC_crash3_deep", crashpoints=True),
     "C09": dict(fams=[("member", 3), ("member5", 3)], corpus=["member"], mc="MC_member3", mc_deep="MC_member3_deep", monitor_props=["C01", "C02", "C07", "C09", "C05"],
-                gen=[("Gen_member4", ["a", "b"], 45, ["c", "d"])]),
+                gen=[("Gen_member4", ["a", "b"], 45, ["c", "d"]), ("Gen_snapasyncmember3", ["a", "b", "c"], 55)]),
     "C10": dict(fams=[("snap", 6)], corpus=["snap"], mc="MC_snap3", mc_deep="MC_snapwin3", gen=[("Gen_snap3", ["a", "b", "c"], 45), ("Gen_snapwin3", ["a", "b", "c"], 45)], snaprace=True),
-    "C11": dict(fams=[("snap", 6)], corpus=["snap"], mc="MC_snapasync3", mc_deep="MC_snap3_deep", gen=[("Gen_snap3", ["a", "b", "c"], 45), ("Gen_snapasync3", ["a", "b", "c"], 45)], snaprace=True),
+    "C11": dict(fams=[("snap", 6)], corpus=["snap"], mc="MC_snapasync3", mc_deep="MC_snap3_deep", gen=[("Gen_snap3", ["a", "b", "c"], 45), ("Gen_snapasync3", ["a", "b", "c"], 45), ("Gen_snapasyncmember3", ["a", "b", "c"], 55)], snaprace=True),
     "C12": dict(storage=True),
     "C13": dict(storage=True),
     "C15": dict(fams=[("core", 2), ("crash", 2), ("snap", 2), ("member5", 2)], corpus=["core", "crash", "snap", "member"], mc="MC_heal", mc_deep="MC_heal_deep", mc_module="Heal", healstates=True),
